@@ -37,9 +37,9 @@ RULE = ("Hypothesis draws a process network as a history of operations: 1-5 laun
         "fibers and >= 3 values. Mode B (one case in nine): ONE buffered channel with a drawn capacity (1-8, a "
         "power-of-two neighbour up to 4096, or anything up to 5000) carrying up to 5000 values written with loops: one "
         "fiber fills it within capacity, closes and drains it; or main produces for a launched consumer; or a launched "
-        "producer feeds main. Expected output is exact: capacity() is the capacity asked for, the consumer's first value "
-        "arrives when main has sent min(n, capacity) values, len() never exceeds the capacity, all n values arrive in "
-        "order and then nil. Mode N (one case in ten): one end of a channel sits in a callback run by a native "
+        "producer feeds main. With one fiber the expected output is exact; with two: capacity() is the capacity asked "
+        "for, the consumer's first value arrives when main has sent at most min(n, capacity) values, len() never exceeds "
+        "the capacity, all n values arrive in order and then nil. Mode N (one case in ten): one end of a channel sits in a callback run by a native "
         "(Iter.map under List.collect or list(), each, reduce, filter), 0-3 calls below main, the other end is a launched "
         "fiber (0-3 calls deep, optionally launched by a starter fiber) that calls helper functions 0-4 calls deep and "
         "may raise and catch an error before each channel operation; 1-4 values, synchronous or buffered. Expected "
@@ -56,7 +56,7 @@ TECHNIQUE = "property-based testing (Hypothesis): model-based oracle over genera
 
 
 def cases(tier):
-    return 2400 if tier == "quick" else 480000
+    return 2400 if tier == "quick" else 240000
 
 
 def strategy(hazards):
